@@ -41,6 +41,8 @@ type Oblig struct {
 }
 
 type Runner struct {
+	wantPostSnap bool // the contract under verification refers to the state after a call (mapsamesince)
+	atReturn bool  // finish() is evaluating the postconditions of the function under verification
 	curRets  []Val // results of the return being checked (set by finish)
 	prog     *ssa.Program
 	specs    *SpecSet
@@ -169,7 +171,7 @@ func (r *Runner) oblige(st *State, kind, label string, goal Term, pos token.Pos)
 			o.EntryHeap = e.heap
 		}
 	}
-	if kind == "post" && r.curRets != nil {
+	if kind == "post" && r.atReturn {
 		o.Rets = r.curRets
 		o.ExitHeap = make(map[string]Term, len(st.heap))
 		for k, v := range st.heap {
